@@ -745,6 +745,11 @@ func (ev *Evaluator) evalD(v ssa.Value, env Env, fr *Frame, d int) (constant.Val
 	switch x := v.(type) {
 	case *ssa.Const:
 		if x.Value == nil {
+			// nil of a pointer/interface/slice/map/chan/func type: the sentinel nilK; zero structs stay unknown
+			switch x.Type().Underlying().(type) {
+			case *types.Pointer, *types.Interface, *types.Slice, *types.Map, *types.Chan, *types.Signature:
+				return nilK, true
+			}
 			return nil, false
 		}
 		return x.Value, true
@@ -873,6 +878,9 @@ func intBits(t types.Type) (bits int, signed bool, ok bool) {
 
 // convertConst wraps an integer constant into the value range of t.
 func convertConst(k constant.Value, t types.Type) (constant.Value, bool) {
+	if isNilK(k) {
+		return k, true
+	}
 	if k.Kind() != constant.Int {
 		return k, true
 	}
@@ -895,7 +903,18 @@ func convertConst(k constant.Value, t types.Type) (constant.Value, bool) {
 	return r, true
 }
 
+// nilK is the sentinel constant for a nil reference value.
+var nilK = constant.MakeUnknown()
+
+func isNilK(k constant.Value) bool { return k != nil && k.Kind() == constant.Unknown }
+
 func evalBinOp(op token.Token, a, b constant.Value, opndT, resT types.Type) (constant.Value, bool) {
+	if isNilK(a) || isNilK(b) {
+		if isNilK(a) && isNilK(b) && (op == token.EQL || op == token.NEQ) {
+			return constant.MakeBool(op == token.EQL), true
+		}
+		return nil, false
+	}
 	switch op {
 	case token.EQL, token.NEQ, token.LSS, token.LEQ, token.GTR, token.GEQ:
 		if a.Kind() != b.Kind() {
